@@ -260,12 +260,12 @@ End InstFacts.
 (* the semantic theorem for the checked public build *)
 Theorem build_sem p r m inputs outputs :
   build_checked p r = inl m -> all_vars (r_inputs r) = Some inputs -> all_vars (r_outputs r) = Some outputs ->
-  let p' := with_main p (Some (map snd inputs)) outputs in
+  let p' := with_main p (Some (main_args inputs)) outputs in
   forall (val : Type) (dv : val) (opsem : nat -> list (option val) -> list (clos val) -> list val),
   (forall n ivs c1 c2, Forall2 (fun a b => forall av, a av = b av) c1 c2 -> opsem n ivs c1 = opsem n ivs c2) ->
   forall av,
   run_plan p' val dv opsem (plan_of_graph p' 0 (mmain m)) av =
-  map (meaning p' val dv opsem (bindv val dv (map snd inputs) av)) (map snd outputs).
+  map (meaning p' val dv opsem (bindv val dv (main_args inputs) av)) (map snd outputs).
 Proof.
   intros H Hi Ho p' val dv opsem Hext av. apply build_checked_inv in H. destruct H as [_ Hv].
   pose proof (plan_checked p r m inputs outputs Hi Ho Hv) as Hc. fold p' in Hc.
